@@ -497,6 +497,9 @@ SHAPE_AX = {
     'several': (['mid', 'mid', 'mid', 'mid'], [1.0, 1.0, 1.0, 1.0]),
 }
 STRUCTS = ['bundle', 'multi']
+# 'thin': un-rodded end caps thinner than one axial step (the top region is exactly one step: the outlet
+# plane of the summary is computed by a region that is active for that single step); not in the product
+# of STRUCTS - a few dedicated cases
 MODELS = ['fuel', 'pin', 'none']
 L_CORE = 0.4
 
@@ -524,6 +527,11 @@ def cases_sweep(tier):
                                 for na in (1, 2):
                                     out.append({'part': 'sweep', 'shape': sh, 'structure': st, 'ducts': nd,
                                                 'model': mdl, 'n_asm': na, 'rings': rings, 'gap': gap})
+    for nd in (1, 2):
+        for mdl in (('fuel',) if tier == 'quick' else MODELS):
+            for na in ((1,) if tier == 'quick' else (1, 2)):
+                out.append({'part': 'sweep', 'shape': 'top', 'structure': 'thin', 'ducts': nd, 'model': mdl,
+                            'n_asm': na, 'rings': 2, 'gap': 'none' if na == 1 else 'flow'})
     out += cases_units(tier)
     return out
 
@@ -567,6 +575,9 @@ def sweep_scenario(c):
     if c['structure'] == 'multi':
         regions = {'lower': {'z_lo': 0.0, 'z_hi': 0.1, 'vf_coolant': 0.3},
                    'upper': {'z_lo': 0.3, 'z_hi': L_CORE, 'vf_coolant': 0.35, 'model': '6node'}}
+    elif c['structure'] == 'thin':
+        regions = {'lower': {'z_lo': 0.0, 'z_hi': 2.0e-5, 'vf_coolant': 0.3},
+                   'upper': {'z_lo': round(L_CORE - 3.0e-5, 9), 'z_hi': L_CORE, 'vf_coolant': 0.35}}
     kw = {}
     if c['model'] == 'fuel':
         kw['fuelmodel'] = FUELMODEL
